@@ -14,6 +14,9 @@ PIPE_CAUGHT = (AttributeError, NameError, LookupError, TypeError, ValueError)
 EXISTS_CAUGHT = (AttributeError, LookupError, TypeError, NameError)
 
 
+from vlib.tprog import indent_text  # noqa: E402
+
+
 class InvalidExpression(Exception):
     """a syntactically invalid expression was reached (C19): args[0] = planted site number"""
 
@@ -243,7 +246,7 @@ class Ref:
             out.append(']]>')
             return
         if node.get('indent') is not None:
-            out.append('\n' + ' ' * node['indent'])
+            out.append('\n' + indent_text(node['indent']))
         if 'onerror' in node:
             mark = len(out)
             try:
@@ -334,9 +337,12 @@ class Ref:
                 it = self.ev(e, scope)
                 items = list(it) if it is not None else []
                 n = len(items)
-                sep = ('\n' + ' ' * node['indent']) if node.get('indent') is not None else ''
+                sep = ('\n' + indent_text(node['indent'])) if node.get('indent') is not None else ''
                 rframe = scope.push()
                 key = name if isinstance(name, str) else tuple(name)
+                # repeat[name] belongs to this loop while it runs; an enclosing loop over the same name gets
+                # its own entry back when this one is finished
+                outer_item = self.repeat.items.get(key)
                 try:
                     for i, item in enumerate(items):
                         if isinstance(name, str):
@@ -353,6 +359,8 @@ class Ref:
                             out.append(sep)
                 finally:
                     scope.pop()
+                    if outer_item is not None:
+                        self.repeat.items[key] = outer_item
             else:
                 self.once(node, scope, out)
         finally:
@@ -472,7 +480,7 @@ class Ref:
                     pass  # self-closing: start tag already carries ' />'
                 else:
                     if node.get('close_indent') is not None and keep_children:
-                        out.append('\n' + ' ' * node['close_indent'])
+                        out.append('\n' + indent_text(node['close_indent']))
                     out.append('</' + node['tag'] + '>')
         finally:
             scope.pop()
